@@ -38,6 +38,9 @@ type Engine struct {
 
 	// opcode implementers etc.
 	namedTypes map[string]types.Type
+	readsMemo  map[*ssa.Function]*readSet
+	implMemo   map[string][]types.Type
+	heapReg    map[string]*heapInfo
 }
 
 func (e *Engine) noteAssumption(s string) {
@@ -438,4 +441,44 @@ func findLoops(fn *ssa.Function) ([]*loopInfo, error) {
 		}
 	}
 	return loops, nil
+}
+
+// ifaceTargets: the methods of all implementing types an interface-level contract applies to.
+func (e *Engine) ifaceTargets(key string) []*ssa.Function {
+	// key: iface:pkg.Iface.Method
+	rest := strings.TrimPrefix(key, "iface:")
+	parts := strings.Split(rest, ".")
+	if len(parts) != 3 {
+		return nil
+	}
+	p := e.pkgs[parts[0]]
+	if p == nil {
+		return nil
+	}
+	obj := p.Types.Scope().Lookup(parts[1])
+	if obj == nil {
+		return nil
+	}
+	it := obj.Type()
+	iface, ok := it.Underlying().(*types.Interface)
+	if !ok {
+		return nil
+	}
+	var m *types.Func
+	for i := 0; i < iface.NumMethods(); i++ {
+		if iface.Method(i).Name() == parts[2] {
+			m = iface.Method(i)
+		}
+	}
+	if m == nil {
+		return nil
+	}
+	var out []*ssa.Function
+	for _, t := range e.implementers(it) {
+		if fn := e.methodOf(t, m); fn != nil {
+			out = append(out, fn)
+		}
+	}
+	sort.Slice(out, func(i, j int) bool { return funcKey(out[i]) < funcKey(out[j]) })
+	return out
 }
